@@ -136,6 +136,10 @@ impl Cx<'_> {
                     Out::Violation
                 } else {
                     self.t.hit(h, "value");
+                    // one actual case per helper and shard for the evidence file
+                    if self.t.get(h, "value") == 257 && self.m.wants_sample() {
+                        self.m.sample(json!({"helper": h, "type": ty, "inputs": inputs(), "returned": ds(&v), "oracle": ds(e)}));
+                    }
                     if e == hi {
                         self.t.hit(h, "value_eq_type_max");
                     } else if e == lo && !lo.is_zero() {
